@@ -17,11 +17,15 @@ import Simfile.Model.Entry
 import Simfile.Model.EndToEnd
 import Simfile.Model.Msd
 import Simfile.Model.MsdParser
+import Simfile.Lemmas.MsdTextStray
 import Simfile.Model.Source
 import Simfile.Model.Convert
 import Simfile.Model.Views
 import Simfile.Model.Dir
+import Simfile.Model.Path
+import Simfile.Model.Tree
 import Simfile.Model.Mutate
+import Simfile.Model.MutateData
 import Simfile.Spec.Timeline
 import Simfile.Spec.Notes
 import Simfile.Spec.Group
@@ -242,6 +246,19 @@ def getVOpX (j : Json) : R VOpX := do
   | [Json.str "setdefault", k, v] => pure (.setDefault (← getStr k) (← getStr v))
   | [Json.str "move_to_end", k, l] => pure (.moveToEnd (← getStr k) (← getBool l))
   | _ => pure (.base (← getVOp j))
+partial def getNode (j : Json) : R Node := do
+  match j.getObjVal? "file" with
+  | .ok c => pure (.file (← getStr c))
+  | .error _ =>
+    let es ← getArr (fun e => do
+      match (← e.getArr?).toList with
+      | [n, x] => pure (← getStr n, ← getNode x)
+      | _ => throw "tree entry expected") (← field j "dir")
+    pure (.dir es)
+def jFsErr : FsErr → Json
+  | .illegalBackReference => Json.mkObj [("fs", Json.str "IllegalBackReference")]
+  | .resourceNotFound => Json.mkObj [("fs", Json.str "ResourceNotFound")]
+  | .directoryExpected => Json.mkObj [("fs", Json.str "DirectoryExpected")]
 def jVOut : VOut → Json
   | .value v => Json.arr #[Json.str "value", jOptStr v]
   | .done => Json.arr #[Json.str "done"]
@@ -455,6 +472,30 @@ def handle (j : Json) : R Json := do
       | some none => Json.null
       | some (some (.inl x)) => Json.arr #[Json.str "spec", jStr x]
       | some (some (.inr x)) => Json.arr #[Json.str "match", jStr x])
+  | "path.normpath" => pure (match Path.normpath (← getStr (← field j "p")) with | some r => jStr r | none => Json.null)
+  | "path.join" => pure (match Path.join (← getStr (← field j "a")) (← getStr (← field j "b")) with | some r => jStr r | none => Json.null)
+  | "path.split" => let r := Path.split (← getStr (← field j "p")); pure (Json.arr #[jStr r.1, jStr r.2])
+  | "tree.pack_dirs" =>
+    pure (match packSimfileDirs (← getNode (← field j "tree")) (← getStr (← field j "pack")) with
+      | .ok l => Json.arr (l.map jStr).toArray
+      | .error e => jFsErr e)
+  | "tree.dir" =>
+    pure (match simfileDirectoryOf (← getNode (← field j "tree")) (← getStr (← field j "path")) (← getBool (← field j "ignore_duplicate")) with
+      | .ok sd => Json.mkObj [("dir", jStr sd.simfileDir), ("sm", jOptStr sd.sm), ("ssc", jOptStr sd.ssc)]
+      | .error (.fs e) => jFsErr e
+      | .error .duplicate => Json.str "DuplicateSimfileError")
+  | "tree.banner" =>
+    pure (match packBannerT (← getNode (← field j "tree")) (← getStr (← field j "pack")) with
+      | .ok r => jOptStr r
+      | .error e => jFsErr e)
+  | "tree.asset" =>
+    pure (match assetOf (← getNode (← field j "tree")) (← getStr (← field j "dir")) (← getStr (← field j "kind"))
+        (← getOptStr (fieldD j "specified" Json.null)) with
+      | .ok none => Json.null
+      | .ok (some (.inl x)) => Json.arr #[Json.str "spec", jStr x]
+      | .ok (some (.inr x)) => Json.arr #[Json.str "match", jStr x]
+      | .error (.fs e) => jFsErr e
+      | .error .unmodelled => Json.str "unmodelled")
   | "assets.session" =>
     let asks ← getArr (fun q => do
       let c := fieldD q "containing" Json.null
@@ -471,6 +512,63 @@ def handle (j : Json) : R Json := do
   | "assets.matches" =>
     pure (match assetMatches (← getStr (← field j "kind")) (← getStr (← field j "name")) with
       | some b => jBool b | none => Json.str "unmodelled")
+  | "mutate.data" =>
+    -- the data-carrying model of mutate (Model/MutateData.lean): bytes are strings of code points 0..255
+    let toBytes : Str → MD.Bytes := fun s => s.map fun c => c.toNat.toUInt8
+    let ofBytes : MD.Bytes → Json := fun b => jStr (b.map fun u => Char.ofNat u.toNat)
+    let cfg : MutateCfg := { input := ← getStr (← field j "input"), output := ← getOptStr (fieldD j "output" Json.null),
+                             backup := ← getOptStr (fieldD j "backup" Json.null) }
+    let encs ← getArr getStr (← field j "encs")
+    let fs0 ← getArr (fun e => do
+      match (← e.getArr?).toList with
+      | [p, b] => pure (← getStr p, toBytes (← getStr b))
+      | _ => throw "fs entry expected") (← field j "fs")
+    let codecs ← getArr (fun e => do
+      match (← e.getArr?).toList with
+      | [n, t] =>
+        let dec ← getArr (fun d => do
+          match (← d.getArr?).toList with
+          | [b, x] => pure (toBytes (← getStr b), ← getOptStr x)
+          | _ => throw "decode entry expected") (← field t "decode")
+        let enc ← getArr (fun d => do
+          match (← d.getArr?).toList with
+          | [x, b] => pure (← getStr x, (← getOptStr b).map toBytes)
+          | _ => throw "encode entry expected") (← field t "encode")
+        pure (← getStr n, MD.tableCodec dec enc)
+      | _ => throw "codec entry expected") (← field j "codecs")
+    let cod := MD.codecsOf codecs
+    let strict ← getBool (← field j "strict")
+    let k : Option Nat := ← (do let f := fieldD j "fault" Json.null; if f.isNull then pure none else do pure (some (← getNat f)))
+    let cut ← getNat (fieldD j "cut" (Json.num 0))
+    let body := ← field j "body"
+    let jExn : MD.Exn → Json := fun e => Json.mkObj [("tag", jStr e.tag), ("isCancel", jBool e.isCancel), ("isException", jBool e.isException)]
+    let getExn : Json → R MD.Exn := fun r => do
+      pure { tag := ← getStr (← field r "tag"), isCancel := ← getBool (← field r "isCancel"), isException := ← getBool (← field r "isException") }
+    let jOut : MD.OutcomeD → Json := fun o => match o with
+      | .valueError => Json.str "ValueError" | .unicodeDecodeError => Json.str "UnicodeDecodeError" | .fileNotFound => Json.str "FileNotFoundError"
+      | .loadError e => Json.arr #[Json.str "loadError", jObjErr e] | .returned => Json.str "returned"
+      | .propagated e => Json.arr #[Json.str "propagated", jExn e]
+      | .serializeError a e => Json.arr #[Json.str "serializeError", jBool a, jObjErr e]
+      | .encodeError b => Json.arr #[Json.str "UnicodeEncodeError", jBool b] | .ioError n => Json.arr #[Json.str "ioError", jNat n]
+    let jOpD : MD.OpD → Json := fun o => match o with
+      | .openR p e => Json.arr #[Json.str "openR", jStr p, jStr e] | .openW p e => Json.arr #[Json.str "openW", jStr p, jStr e]
+      | .write p _ => Json.arr #[Json.str "write", jStr p] | .close p _ => Json.arr #[Json.str "close", jStr p]
+    let finish {Sim : Type} (jSim : Sim → Json) (r : MD.ResultD Sim) : Json :=
+      Json.mkObj [("outcome", jOut r.outcome), ("fs", jArr (fun e => Json.arr #[jStr e.1, ofBytes e.2]) r.fs), ("trace", jArr jOpD r.trace),
+                  ("detected", match r.detected with | some (e, _) => jStr e | none => Json.null),
+                  ("yielded", match r.yielded with | some s => jSim s | none => Json.null)]
+    if (← (← field j "world").getStr?) == "sm" then
+      let b : SMSimfile → MD.BodyResult SMSimfile ← (do
+        match body.getObjVal? "returns" with
+        | .ok x => let s ← getSM x; pure (fun _ => MD.BodyResult.returns s)
+        | .error _ => let e ← getExn (← field body "raises"); pure (fun _ => MD.BodyResult.raises e))
+      pure (finish jSM (MD.mutateD (MD.smWorld MsdP.msd cod strict) cfg encs b fs0 k cut))
+    else
+      let b : SSCSimfile → MD.BodyResult SSCSimfile ← (do
+        match body.getObjVal? "returns" with
+        | .ok x => let s ← getSSC x; pure (fun _ => MD.BodyResult.returns s)
+        | .error _ => let e ← getExn (← field body "raises"); pure (fun _ => MD.BodyResult.raises e))
+      pure (finish jSSC (MD.mutateD (MD.sscWorld MsdP.msd cod strict) cfg encs b fs0 k cut))
   | "mutate.run" =>
     let cfg : MutateCfg := { input := ← getStr (← field j "input"), output := ← getOptStr (fieldD j "output" Json.null),
                              backup := ← getOptStr (fieldD j "backup" Json.null) }
@@ -516,6 +614,14 @@ def handle (j : Json) : R Json := do
       | some t => Json.mkObj [("params", jArr jParam t.params), ("tokerr", jBool t.strayError)]
       | none => Json.str "AssertionError")
   | "msd.render" => pure (jStr (MsdP.renderParam (← getParam (← field j "param"))))
+  | "msd.remove_stray" =>
+    -- the text with its stray text deleted (what ignore_stray_text discards), and whether the side conditions of
+    -- C03Text.lenient_eq_strict_removeStray hold (`removable`); null when the lexer rejects the text
+    let t ← getStr (← field j "text")
+    pure (match MsdP.lex (t.length + 1) t false false with
+      | .ok toks => Json.mkObj [("cleaned", jStr (MsdP.render (MsdP.cleanToks toks false))),
+                                ("removable", jBool (MsdP.removable toks false .other false false))]
+      | .error _ => Json.null)
   | "msd.safe" =>
     let ps ← getArr getParam (← field j "params")
     let lead ← (do let l := fieldD j "lead_nl" Json.null; if l.isNull then pure false else getBool l)
